@@ -45,4 +45,132 @@ theorem app_app (st : State Trace) (a b : Trace) :
 
 end
 
+
+/-- the strict-operator shape of `evalExpr` (the third equation of the `binary` case) -/
+theorem evalExpr_strict {W : Type} (cfg : Config W) (call : CallFn W) (locals : Option Env) (op : BinOp) (l r : Expr) (st : State W)
+    (h1 : op ≠ .and) (h2 : op ≠ .or) :
+    evalExpr cfg call locals (.binary op l r) st =
+      match evalExpr cfg call locals l st with
+      | .ok lv st1 =>
+          match evalExpr cfg call locals r st1 with
+          | .ok rv st2 => .ok (cfg.host.binop op lv rv st2.world) st2
+          | o => o
+      | o => o := by
+  cases op <;> first | (exact absurd rfl h1) | (exact absurd rfl h2) | (rw [evalExpr] <;> first | rfl | (intro h; cases h))
+
+
+
+mutual
+theorem eval_spec (cfg : Config Trace) (hb : Blind cfg.host) (result : Value → List Value → Value) (locals : Option Env) : ∀ (e : Expr) (st : State Trace),
+    evalExpr cfg (traceCall result) locals e st =
+      embed (valueOf (ctxOf cfg result locals st.globals) e) (traceOf (ctxOf cfg result locals st.globals) e) st
+  | .number q, st => by simp [evalExpr, valueOf, traceOf]
+  | .string s, st => by simp [evalExpr, valueOf, traceOf]
+  | .variable n, st => by
+      simp [evalExpr, valueOf, traceOf, apply_ite (fun r => embed r [] st)]
+  | .function n args, st => by
+      rw [evalExpr, valueOf, traceOf]
+      by_cases hn : n = kwIf
+      · simp only [hn, if_true]; exact if_spec cfg hb result locals args st
+      · simp only [hn, if_false]
+        rw [args_spec cfg hb result locals args st]
+        cases hv : valuesOf (ctxOf cfg result locals st.globals) args with
+        | undef m => simp [callTrace]
+        | ok vs =>
+          simp only [embedArgs_ok, callTrace, callee, ctx_func, ctx_result]
+          cases hf : lookupFunc cfg locals st.globals n with
+          | none => simp
+          | some fv => cases fv <;> simp [traceCall, List.append_assoc]
+  | .binary op l r, st => by
+      by_cases h1 : op = .and
+      · subst h1
+        rw [evalExpr, eval_spec cfg hb result locals l st, valueOf, traceOf]
+        cases hl : valueOf (ctxOf cfg result locals st.globals) l with
+        | undef m => simp [rightSelected]
+        | ok lv =>
+          simp only [embed_ok, rightSelected, ctx_truthy]
+          rw [hb.truthy lv _ []]
+          by_cases ht : cfg.host.truthy lv [] = true
+          · simp only [ht, if_true]; rw [eval_spec cfg hb result locals r]
+            cases valueOf (ctxOf cfg result locals st.globals) r <;> simp [List.append_assoc]
+          · simp [ht]
+      · by_cases h2 : op = .or
+        · subst h2
+          rw [evalExpr, eval_spec cfg hb result locals l st, valueOf, traceOf]
+          cases hl : valueOf (ctxOf cfg result locals st.globals) l with
+          | undef m => simp [rightSelected]
+          | ok lv =>
+            simp only [embed_ok, rightSelected, ctx_truthy]
+            rw [hb.truthy lv _ []]
+            by_cases ht : cfg.host.truthy lv [] = true
+            · simp [ht]
+            · simp only [ht]; rw [eval_spec cfg hb result locals r]
+              cases valueOf (ctxOf cfg result locals st.globals) r <;> simp [List.append_assoc]
+        · rw [evalExpr_strict _ _ _ _ _ _ _ h1 h2, eval_spec cfg hb result locals l st, valueOf, traceOf]
+          cases hl : valueOf (ctxOf cfg result locals st.globals) l with
+          | undef m => simp [rightSelected]
+          | ok lv =>
+            simp only [embed_ok]
+            rw [eval_spec cfg hb result locals r]
+            have hsel : rightSelected (ctxOf cfg result locals st.globals) op (.ok lv) = true := by
+              cases op <;> first | rfl | exact absurd rfl h1 | exact absurd rfl h2
+            rw [hsel]
+            cases hr : valueOf (ctxOf cfg result locals st.globals) r with
+            | undef m => cases op <;> simp [List.append_assoc] <;> first | exact absurd rfl h1 | exact absurd rfl h2
+            | ok rv =>
+              simp only [embed_ok]
+              rw [hb.binop op lv rv _ []]
+              cases op <;> first | exact absurd rfl h1 | exact absurd rfl h2 | simp [List.append_assoc]
+  | .unary .not e, st => by
+      rw [evalExpr, eval_spec cfg hb result locals e st, valueOf, traceOf]
+      cases valueOf (ctxOf cfg result locals st.globals) e with
+      | undef m => simp
+      | ok v => simp only [embed_ok, ctx_truthy]; rw [hb.truthy v _ []]
+  | .unary .neg e, st => by
+      rw [evalExpr, eval_spec cfg hb result locals e st, valueOf, traceOf]
+      cases valueOf (ctxOf cfg result locals st.globals) e <;> simp
+  | .group e, st => by rw [evalExpr, eval_spec cfg hb result locals e st, valueOf, traceOf]
+
+theorem args_spec (cfg : Config Trace) (hb : Blind cfg.host) (result : Value → List Value → Value) (locals : Option Env) : ∀ (as : List Expr) (st : State Trace),
+    evalArgs cfg (traceCall result) locals as st =
+      embedArgs (valuesOf (ctxOf cfg result locals st.globals) as) (tracesOf (ctxOf cfg result locals st.globals) as) st
+  | [], st => by simp [evalArgs, valuesOf, tracesOf]
+  | a :: as, st => by
+      rw [evalArgs, eval_spec cfg hb result locals a st, valuesOf, tracesOf]
+      cases valueOf (ctxOf cfg result locals st.globals) a with
+      | undef m => simp
+      | ok v =>
+        simp only [embed_ok]; rw [args_spec cfg hb result locals as]
+        cases valuesOf (ctxOf cfg result locals st.globals) as <;> simp [List.append_assoc]
+
+theorem if_spec (cfg : Config Trace) (hb : Blind cfg.host) (result : Value → List Value → Value) (locals : Option Env) : ∀ (as : List Expr) (st : State Trace),
+    evalIf cfg (traceCall result) locals as st =
+      embed (ifValue (ctxOf cfg result locals st.globals) as) (ifTrace (ctxOf cfg result locals st.globals) as) st
+  | [], st => by simp [evalIf, ifValue, ifTrace]
+  | [c], st => by
+      rw [evalIf, eval_spec cfg hb result locals c st, ifValue, ifTrace]
+      cases valueOf (ctxOf cfg result locals st.globals) c <;> simp
+  | [c, t], st => by
+      rw [evalIf, eval_spec cfg hb result locals c st, ifValue, ifTrace]
+      cases valueOf (ctxOf cfg result locals st.globals) c with
+      | undef m => simp
+      | ok v =>
+        simp only [embed_ok, ctx_truthy]; rw [hb.truthy v _ []]
+        by_cases ht : cfg.host.truthy v [] = true
+        · simp only [ht, if_true]; rw [eval_spec cfg hb result locals t]
+          cases valueOf (ctxOf cfg result locals st.globals) t <;> simp [List.append_assoc]
+        · simp [ht]
+  | c :: t :: f :: rest, st => by
+      rw [evalIf, eval_spec cfg hb result locals c st, ifValue, ifTrace]
+      cases valueOf (ctxOf cfg result locals st.globals) c with
+      | undef m => simp
+      | ok v =>
+        simp only [embed_ok, ctx_truthy]; rw [hb.truthy v _ []]
+        by_cases ht : cfg.host.truthy v [] = true
+        · simp only [ht, if_true]; rw [eval_spec cfg hb result locals t]
+          cases valueOf (ctxOf cfg result locals st.globals) t <;> simp [List.append_assoc]
+        · simp only [ht]; rw [eval_spec cfg hb result locals f]
+          cases valueOf (ctxOf cfg result locals st.globals) f <;> simp [List.append_assoc]
+end
+
 end C03
